@@ -371,37 +371,37 @@ EXTRA = {
             'selecting a loop element under a test in a labelled loop '
             'labels the selection. Settings the property depends on are bound at every call whose callee would otherwise fall back to a default. The worker count is tested against a constant only at the two confirmed serial-or-parallel sites. An integer type a worker chooses from its chunk is sized from the largest stored value when it holds values and from the number of entries when it holds running counts. The taint engine labels a store into a table that outlives a loop with labelled visiting order when the position is not given by the loop element (order-dependent overwrite); writes through an HDF5 handle opened for writing are sinks. A list whose order was frozen from a set must be sorted before a TaxonomyTree is built from it (taint: frozen order); n_processors and chunk_size reach the election as configured.'),
     'C05': ('write-cursor discipline, loop-coverage must-pass, exact '
-            'tiling of chunked loops, index-space typing of numpy code; permutation pairing of sorted reads; parameter forwarding along the call chain; request-order dependence of the readers; buffer-window use; sibling agreement of the returns of range readers; placement by column index; member-kind agreement of borrowed element types',
+            'tiling of chunked loops, index-space typing of numpy code; permutation pairing of sorted reads; parameter forwarding along the call chain; request-order dependence of the readers; buffer-window use; sibling agreement of the returns of range readers; placement by column index; member-kind agreement of borrowed element types; order-free summaries of a sorted request',
             'Also decides: write cursors of the assembly loops are used, '
             'advanced and recorded in every iteration; chunked loops tile '
             'their axis (window = step, clamp = bound, step and bound on '
             'the same axis); in the transposition, slices and gathers are '
             'applied in the index space they were computed in; pointer '
-            'values are never scatter positions. Rows read in sorted order are put back with the matching permutation, once, and before every return. Settings the property depends on are bound at every call whose callee would otherwise fall back to a default. A reader answers from the requested row list itself, not only from its sorted / merged form. A re-used read buffer is consumed through the part just filled. CSR range readers return re-based pointers on every path and densify by column index. An array allocated with another array\'s element type is used as the same kind of sparse-matrix member (values vs positions).'),
+            'values are never scatter positions. Rows read in sorted order are put back with the matching permutation, once, and before every return. Settings the property depends on are bound at every call whose callee would otherwise fall back to a default. A reader answers from the requested row list itself, not only from its sorted / merged form. A re-used read buffer is consumed through the part just filled. CSR range readers return re-based pointers on every path and densify by column index. An array allocated with another array\'s element type is used as the same kind of sparse-matrix member (values vs positions). Single elements and the length of a request the function sorts are order-free summaries (R-PERM/request-order).'),
     'C07': ('ordering-key provenance; column-gather detection on symbolic '
             'terms; parameter forwarding along the call chain; dtype idioms of the normalisation; integer-width rule (shared with C16); column selection by name; rational normal form of the CPM conversion; symbolic provenance of the row chunk size; symbolic identity of forwarded configuration values; accumulator type of the row totals',
             'Also decides: no ordering step on the way to the per-parent '
             'index arrays of the marker cache depends on query positions; '
             'the array normalised in the chunk loops has not been cut by '
             'column; the CPM divisor replaces zero totals only. Settings the property depends on are bound at every call whose callee would otherwise fall back to a default. (in particular the declared normalization). Normalised values are not cast to, or stored in place into, the element type of the raw counts. The integer type chosen by validation is judged from the np.round-ed extremes against both bounds of the type. convert_to_cpm returns 10^6 * data / row total on every path and both conversions take log2 of 1 + that (R-ARITH/cpm). The chunk size handed to the row readers does not depend on the number of gene columns (R-PROV/chunking-independent-of-genes). The declared normalization reaches the election exactly as configured (R-FWD/config-as-requested); row totals are accumulated in a widened type (R-CAP/row-total-accumulator).'),
-    'C08': ('iteration-order provenance of the in-place patching loop; index capacity typing; parameter forwarding along the call chain; guard census of empty-list rejections; column selection by name, in the order asked for; single key expression of the cache group read for a parent; constant propagation over map_to_ensembl for the query name list; symbolic identity of forwarded configuration values',
+    'C08': ('iteration-order provenance of the in-place patching loop; index capacity typing; parameter forwarding along the call chain; guard census of empty-list rejections; column selection by name, in the order asked for; single key expression of the cache group read for a parent; constant propagation over map_to_ensembl for the query name list; symbolic identity of forwarded configuration values; iteration order of the ancestor patching loop',
             'Also decides: parents are patched deepest first; the '
             'unknown-to-reference test is made on the unfiltered marker '
-            'table. Gene positions stored with an explicitly chosen integer type are sized from the list they point into. Settings the property depends on are bound at every call whose callee would otherwise fall back to a default. A rejection for an empty marker list also looks at the number of children. Marker columns are taken from the query by a name-derived fancy index. The marker positions used for a parent are read, on every path, from the cache group keyed by that parent. Without a mapping the query gene names are the var index as read (R-PROV/query-names-as-in-file); min_markers reaches the cache builder as configured.'),
+            'table. Gene positions stored with an explicitly chosen integer type are sized from the list they point into. Settings the property depends on are bound at every call whose callee would otherwise fall back to a default. A rejection for an empty marker list also looks at the number of children. Marker columns are taken from the query by a name-derived fancy index. The marker positions used for a parent are read, on every path, from the cache group keyed by that parent. Without a mapping the query gene names are the var index as read (R-PROV/query-names-as-in-file); min_markers reaches the cache builder as configured. Ancestor lists are added nearest first (R-PROV/ancestors-nearest-first).'),
     'C09': ('loop-coverage must-pass, merge initial value, guard form, '
-            'exact tiling; key-space agreement of the dataset tables; parameter forwarding along the call chain; dtype idioms of the statistics; row-position provenance (rule of C10); threshold polynomials of the counting statistics; whole-package edit census of values handed out by tree accessors; rational normal form of moments and CPM; pointer-scatter idiom (rule of C05); index-space agreement of label positions and chunk rows; provenance of the list the output rows are numbered from',
+            'exact tiling; key-space agreement of the dataset tables; parameter forwarding along the call chain; dtype idioms of the statistics; row-position provenance (rule of C10); threshold polynomials of the counting statistics; whole-package edit census of values handed out by tree accessors; rational normal form of moments and CPM; pointer-scatter idiom (rule of C05); index-space agreement of label positions and chunk rows; provenance of the list the output rows are numbered from; provenance of the chunking extent',
             'Also decides: every chunk reaches _process_chunk; merged '
             'tables start from zeros; files are compared by gene sequence '
             'before column-wise addition; chunk windows tile the rows; '
             'per-file state of a worker is refreshed on a test of the '
             'file; files merged by position are compared on their '
-            'complete numbering tables. The ABC front end keys its dataset tables by the label as given. Settings the property depends on are bound at every call whose callee would otherwise fall back to a default. Sums and CPM denominators are not cast back to the element type of the raw counts. Rows a tree built from the reference file assigns to leaves are file positions. gt0 / gt1 / ge1 are column counts above 0, above 1 and above 1 - eps. No user of a tree accessor that hands out the tree\'s own container edits it in place. Mean and variance of a node are S / N and (Q - S^2/N)/(N - 1) of the summed statistics (R-ARITH/moments, rule of C11); counts per million are 10^6 * data / row total (R-ARITH/cpm, rule of C07). The sparse readers do not place values by pointer scatter (rule of C05); positions found in the label array of a chunk are positions of the chunk\'s rows (R-SPACE/chunk-row-positions). Output rows are numbered from all leaves of the tree (R-COVER/row-per-leaf).'),
-    'C10': ('loop-coverage must-pass in the tree builder; must-derive of the leaf pairs; row-position provenance of the h5ad tree builder; unique-insert guard of the release reader; memo keys of module-level caches; sentinel-code gather idiom; truthy-position idiom extended to tables of positions',
+            'complete numbering tables. The ABC front end keys its dataset tables by the label as given. Settings the property depends on are bound at every call whose callee would otherwise fall back to a default. Sums and CPM denominators are not cast back to the element type of the raw counts. Rows a tree built from the reference file assigns to leaves are file positions. gt0 / gt1 / ge1 are column counts above 0, above 1 and above 1 - eps. No user of a tree accessor that hands out the tree\'s own container edits it in place. Mean and variance of a node are S / N and (Q - S^2/N)/(N - 1) of the summed statistics (R-ARITH/moments, rule of C11); counts per million are 10^6 * data / row total (R-ARITH/cpm, rule of C07). The sparse readers do not place values by pointer scatter (rule of C05); positions found in the label array of a chunk are positions of the chunk\'s rows (R-SPACE/chunk-row-positions). Output rows are numbered from all leaves of the tree (R-COVER/row-per-leaf). The rows chunked are all rows of the file (R-PROV/row-extent).'),
+    'C10': ('loop-coverage must-pass in the tree builder; must-derive of the leaf pairs; row-position provenance of the h5ad tree builder; unique-insert guard of the release reader; memo keys of module-level caches; sentinel-code gather idiom; truthy-position idiom extended to tables of positions; coercion-free validator predicates',
             'Also decides: the builder records every parent-child link of '
             'every row before validation (no early exit); tables filled '
             'in loops over the levels are keyed by (level, label); memo '
             'keys are complete; zipped lists are in lock-step; the '
-            'release term-table reader records every row. leaves_to_compare answers through get_all_leaf_pairs or a short-cut tested on the parent\'s own children. The rows numbered when a tree is built from an h5ad file are the obs rows as read. Every cell entered into the data-release cell table was first found absent from the whole table. A cache held at module level is keyed by everything its values are computed from. Gathers by pandas category codes are masked on the sign of the codes (R-IDIOM/sentinel-code-gather). A column number fetched with .get() is not tested for truth (R-IDIOM/truthy-position).'),
+            'release term-table reader records every row. leaves_to_compare answers through get_all_leaf_pairs or a short-cut tested on the parent\'s own children. The rows numbered when a tree is built from an h5ad file are the obs rows as read. Every cell entered into the data-release cell table was first found absent from the whole table. A cache held at module level is keyed by everything its values are computed from. Gathers by pandas category codes are masked on the sign of the codes (R-IDIOM/sentinel-code-gather). A column number fetched with .get() is not tested for truth (R-IDIOM/truthy-position). The validator compares names as stored, without coercion (R-EXH/validator-checks).'),
     'C13': ('write-cursor discipline, index-space typing, exact tiling; permutation pairing of sorted reads; memo-key completeness of cached readers; HDF5 name typestate; store-advances rule; inverse permutation on every path; widening of index arithmetic; batch-search discipline',
             'Also decides: cursor discipline of the join / amalgamation '
             'loops, index spaces of the transposition, tiling of all '
@@ -417,10 +417,10 @@ EXTRA = {
             'their matrix exactly; gene identifiers are looked up as '
             'given and clipped afterwards; every window of a rounding '
             'loop is written. Every verdict of the gene renaming step is given after the mapper was consulted. Settings the property depends on are bound at every call whose callee would otherwise fall back to a default. Integrality tests take the largest absolute deviation; no HDF5 name is created twice in a group (finding F8). The integer type is chosen from the np.round-ed extremes against both bounds of the type. The Ensembl pattern has a literal dot as version separator and is applied with fullmatch. Piecewise copies are not filtered by the content just read (R-COVER/copy-not-filtered-by-content). Every return of validate_h5ad follows the call of _validate_h5ad and returns its verdict (R-MUST/validation-runs).'),
-    'C17': ('back-fill provenance (shared with C01); parameter forwarding along the call chain; tree / parent-list agreement; superset tolerance of per-level options; HDF5 codec field map (rule of C15); provenance of the arguments of tree queries in the marker reconciliation',
+    'C17': ('back-fill provenance (shared with C01); parameter forwarding along the call chain; tree / parent-list agreement; superset tolerance of per-level options; HDF5 codec field map (rule of C15); provenance of the arguments of tree queries in the marker reconciliation; reaching definitions of the table the flatten union walks',
             'Also decides: the dropped level is back-filled through the '
             'parent table of that level; node tables are keyed by (level, '
-            'label); zipped lists are in lock-step. Settings the property depends on are bound at every call whose callee would otherwise fall back to a default. A selection call receives parents listed from the very tree it is given. Per-level options written for the full taxonomy are not rejected for naming a dropped level. The HDF5 writer stores each per-level field as it finds it in the records and does not derive one from the others over the output hierarchy. The run\'s tree is never asked about a node named by the marker table (R-PROV/tree-asked-about-its-own-nodes).'),
+            'label); zipped lists are in lock-step. Settings the property depends on are bound at every call whose callee would otherwise fall back to a default. A selection call receives parents listed from the very tree it is given. Per-level options written for the full taxonomy are not rejected for naming a dropped level. The HDF5 writer stores each per-level field as it finds it in the records and does not derive one from the others over the output hierarchy. The run\'s tree is never asked about a node named by the marker table (R-PROV/tree-asked-about-its-own-nodes). The flatten union runs over the marker table as loaded (R-COVER/flatten-union).'),
     'C18': ('sign analysis of cell-count denominators; merge rules shared '
             'with C09; parameter forwarding along the call chain; gene-list rule shared with C11; tree-version provenance (rule of C01); node identity of the tree code (rule of C10); rational normal form of the mean profile; sentinel and row-position rules (shared with C09); axis typing of the election (shared)',
             'Also decides: no division by a possibly-zero cell count; '
@@ -431,18 +431,18 @@ EXTRA = {
             'under a unique name by the lister (or handed over whole); no '
             'predictable file name directly under a scratch parameter. Settings the property depends on are bound at every call whose callee would otherwise fall back to a default. (two documented exceptions where a callee creates its own scratch directory). The recorded statistics path is tried before a same-named file beside the marker file. An output file that is appended to is first created or replaced by the stage. Objects that own a scratch directory release it in their finaliser on every normally returning path. Where a validated file of an earlier run is cleared, every normally returning path either writes the output or removes what was there. No directory is created by mkdir / makedirs in worker code or under a scratch parameter (R-FRESH/directories-only-by-mkdtemp).'),
     'C20': ('value identity inside the sanitiser; ancestor walk of the '
-            'exposure test; exception rendering of path-bearing messages; parameter forwarding along the call chain; module path relative on every path; use census of path-bearing strings; file-object names treated as paths; interprocedural propagation of path-valued arguments',
+            'exposure test; exception rendering of path-bearing messages; parameter forwarding along the call chain; module path relative on every path; use census of path-bearing strings; file-object names treated as paths; interprocedural propagation of path-valued arguments; census of the early answers of the exposure test',
             'Also decides: the replaced text is the word as it occurs, '
             'the replacement is a bare or package-relative name, and '
-            'is_exposed tests every ancestor. Path-bearing messages are not raised as KeyError (repr-rendered). Settings the property depends on are bound at every call whose callee would otherwise fall back to a default. Every alternative of the recorded module path is relative to the package. A string with a path interpolated into it is only ever a raised or logged message. The .name of an open file object is judged as the path it was opened with. Path-valued arguments make the parameters they are bound to path-valued (propagated to a fixpoint).'),
+            'is_exposed tests every ancestor. Path-bearing messages are not raised as KeyError (repr-rendered). Settings the property depends on are bound at every call whose callee would otherwise fall back to a default. Every alternative of the recorded module path is relative to the package. A string with a path interpolated into it is only ever a raised or logged message. The .name of an open file object is judged as the path it was opened with. Path-valued arguments make the parameters they are bound to path-valued (propagated to a fixpoint). Is_exposed answers False early only where the walk over the ancestors ends (R-MUST/exposure-walks-ancestors).'),
     'C01': ('must-pass-through of the failing verdicts of the pre-flight reconciliation; single-child exemption (rule of C08); sibling agreement of returned sequences; reaching-definition alias classes of records in the output writers',
             "Also decides: the marker cache / taxonomy reconciliation can fail only after a parent of the run Single-child parents, the root included, are exempt from needing markers wherever the table is validated.'s tree was found without markers. No return of a function in the anchored modules is empty in one position next to positions that carry data while a sibling return fills it (R-AGREE/partially-empty-return). No output writer edits a record reached from the results it was handed (R-ALIAS/records-read-only)."),
-    'C03': ('parameter forwarding along the call chain; vote-counter capacity (rule of C02); capacity of the aggregated vote totals (rule of C02); polynomial identity of the requested number of candidates; falsy-default idiom',
-            'Settings the property depends on are bound at every call whose callee would otherwise fall back to a default. The vote counter holds as many votes as there are iterations. Aggregated vote totals kept in a chosen integer type are sized from a sum of the summands. The election is asked for exactly n_runners_up + 1 candidates (R-PROV/runners-up-as-requested); no numeric setting is defaulted with `or <number>` (R-IDIOM/falsy-numeric-default).'),
+    'C03': ('parameter forwarding along the call chain; vote-counter capacity (rule of C02); capacity of the aggregated vote totals (rule of C02); polynomial identity of the requested number of candidates; falsy-default idiom; order of the two inheritance passes',
+            'Settings the property depends on are bound at every call whose callee would otherwise fall back to a default. The vote counter holds as many votes as there are iterations. Aggregated vote totals kept in a chosen integer type are sized from a sum of the summands. The election is asked for exactly n_runners_up + 1 candidates (R-PROV/runners-up-as-requested); no numeric setting is defaulted with `or <number>` (R-IDIOM/falsy-numeric-default). The downward correlation inheritance runs before the upward one (R-ORDER/correlation-inheritance).'),
     'C14': ('parameter forwarding along the call chain; jump-in-finally idiom; handler census around dispatches in the spawner closure',
             'Settings the property depends on are bound at every call whose callee would otherwise fall back to a default. No return / break / continue inside a finally block discards a worker failure. No handler around a dispatch absorbs the drain\'s error (R-HANDLER/dispatch-failure).'),
-    'C06': ('cell-axis reduction scan of the glue code; memo-key completeness along the per-cell path; further reducers in the axis typing',
-            'Between chunk arrival and kernel the query matrix is never reduced along the cell axis. Memo tables of the election and the taxonomy class are keyed by everything their values are computed from, early-exit form and full access paths included (R-MEMO/key-complete). Np.ptp and further reducers are typed along their axis.'),
+    'C06': ('cell-axis reduction scan of the glue code; memo-key completeness along the per-cell path; further reducers in the axis typing; pointer terms through array wrappers',
+            'Between chunk arrival and kernel the query matrix is never reduced along the cell axis. Memo tables of the election and the taxonomy class are keyed by everything their values are computed from, early-exit form and full access paths included (R-MEMO/key-complete). Np.ptp and further reducers are typed along their axis. Pointer values behind np.asarray / np.array are still pointer values (R-IDIOM/pointer-scatter).'),
     'C11': ('loop coverage of the marker workers; data-slice provenance of '
             'the vectors entering the Holm correction; sign analysis of '
             'chunk extents; contiguity idiom; rational normal form of mean and variance; batch-search discipline of the transposition',
